@@ -74,6 +74,7 @@ class Machine:
         self.case = case
         self.pool = []
         self.seen = {}  # id -> (quantity, snapshot)
+        self.requests = {}  # request -> object returned the first time
         self.witness = {}  # resolution key -> quantity
         self.n_arith = 0
         self.flags = set()
@@ -111,6 +112,14 @@ class Machine:
         if all(q is not p for p in self.pool):
             self.pool.append(q)
         return q
+
+    def same_as_before(self, request, q):
+        """the identical object for the same request, however many other requests came in between
+        (nothing is registered during a sequence)"""
+        self.ctx.ev()
+        old = self.requests.setdefault(request, q)
+        if old is not q:
+            self.fail("same_request_not_identical_object_later", "request %r returned %r at first and now another object (equal: %r)" % (request, old, old == q))
 
     def pick(self, i):
         return self.pool[i % len(self.pool)] if self.pool else None
@@ -162,6 +171,7 @@ class Machine:
             q2 = ObtainQuantity(u)
             if q1 is not q2:
                 self.fail("same_request_not_identical_object", "ObtainQuantity(%r) twice" % u)
+            self.same_as_before(("unit", u), q1)
             self.add(q1, self.expected_simple(u, None, None))
         elif kind == "obtain_unit_cat":
             u, c = UNITS[op[1] % len(UNITS)]
@@ -169,12 +179,14 @@ class Machine:
             q1 = ObtainQuantity(u, c, cap)
             if ObtainQuantity(u, c, cap) is not q1:
                 self.fail("same_request_not_identical_object", "ObtainQuantity(%r,%r,%r) twice" % (u, c, cap))
+            self.same_as_before(("unit_cat", u, c, cap), q1)
             self.add(q1, self.expected_simple(u, c, cap))
         elif kind == "obtain_cat":
             u, c = UNITS[op[1] % len(UNITS)]
             q1 = ObtainQuantity(None, c)
             if ObtainQuantity(None, c) is not q1:
                 self.fail("same_request_not_identical_object", "ObtainQuantity(None,%r) twice" % c)
+            self.same_as_before(("cat", c), q1)
             self.add(q1, self.expected_simple(None, c, None))
         elif kind == "obtain_legacy":
             leg, cur, c = LEGACY[op[1] % len(LEGACY)]
@@ -190,6 +202,7 @@ class Machine:
             q1 = GetUnknownQuantity(cap)
             if GetUnknownQuantity(cap) is not q1:
                 self.fail("same_request_not_identical_object", "GetUnknownQuantity(%r) twice" % cap)
+            self.same_as_before(("unknown", cap), q1)
             self.add(q1, self.expected_simple("<unknown>", "Unknown", cap))
         elif kind == "empty":
             q1 = Quantity.CreateEmpty()
